@@ -261,3 +261,26 @@ Proof.
     unfold slice_cells, zrange. rewrite Z.sub_0_r. rewrite mget_set_slice by lia.
     rewrite Ei. reflexivity.
 Qed.
+
+Lemma pyi_neg size i : i < 0 -> pyi size i = i + size.
+Proof. intros H. unfold pyi. destruct (i <? 0) eqn:E; [reflexivity|lia]. Qed.
+
+Corollary set2_repr_pos size m i j b : 0 <= i < size -> 0 <= j < size ->
+  py_set2 (to_rows size m) i j (bit_z b) = Ok (to_rows size (mset size m i j b)).
+Proof.
+  intros Hi Hj. assert (Ei : pyi size i = i) by (apply pyi_nonneg; lia).
+  assert (Ej : pyi size j = j) by (apply pyi_nonneg; lia).
+  rewrite set2_repr; [now rewrite Ei, Ej | rewrite Ei; lia | rewrite Ej; lia].
+Qed.
+
+Corollary row_index_repr_pos size m i : 0 <= i < size -> py_row_index (to_rows size m) i = Ok i.
+Proof.
+  intros Hi. assert (Ei : pyi size i = i) by (apply pyi_nonneg; lia).
+  rewrite row_index_repr; [now rewrite Ei | lia | rewrite Ei; lia].
+Qed.
+
+Lemma pyi_range_pos size i : 0 <= i < size -> 0 <= pyi size i < size.
+Proof. intros H. rewrite pyi_nonneg; lia. Qed.
+Lemma pyi_range_neg size i : - size <= i < 0 -> 0 <= pyi size i < size.
+Proof. intros H. rewrite pyi_neg; lia. Qed.
+Ltac pyi_solve := solve [apply pyi_range_pos; lia | apply pyi_range_neg; lia | lia].
